@@ -903,3 +903,66 @@ def rule_pure1(ctx: Ctx) -> RuleResult:
               f"`{bad[0].path}` is modified during rendering: the next rendering of the same registry (other limits, other "
               f"framework) starts from a degraded graph" if bad else "read-only", bad[0].line if bad else f.node.lineno)
     return rr
+
+
+# ---------------------------------------------------------------------------------------------------------------
+# CPython refuses these outside the main thread of the main interpreter (ValueError / RuntimeError)
+MAIN_THREAD_ONLY = {"signal.signal": "ValueError: signal only works in main thread of the main interpreter",
+                    "signal.set_wakeup_fd": "ValueError: set_wakeup_fd only works in main thread"}
+
+
+def _main_thread_only_calls(tree: ast.AST) -> list:
+    # local aliases: `import signal as sg`, `from signal import signal`
+    alias = {}
+    for n in ast.walk(tree):
+        if isinstance(n, ast.Import):
+            for a in n.names:
+                if a.name == "signal":
+                    alias[a.asname or "signal"] = "signal"
+        elif isinstance(n, ast.ImportFrom) and n.module == "signal":
+            for a in n.names:
+                alias[a.asname or a.name] = f"signal.{a.name}"
+    out = []
+    for n in ast.walk(tree):
+        if isinstance(n, ast.Call):
+            fn = norm(n.func)
+            head = fn.split(".")[0]
+            if head in alias:
+                full = alias[head] + fn[len(head):]
+                if full in MAIN_THREAD_ONLY:
+                    out.append((n, full))
+    return out
+
+
+def rule_thread1(ctx: Ctx) -> RuleResult:
+    rr = RuleResult("THREAD-1", "no call on a generation path is restricted to the main thread", floor=1)
+    # positive control: the matcher must recognise the construct it looks for
+    ctl = ast.parse("import signal as sg\nfrom signal import signal\ndef f():\n    sg.signal(2, None)\n    signal(2, None)\n")
+    if len(_main_thread_only_calls(ctl)) != 2:
+        raise AnalysisError("THREAD-1: positive control failed (matcher does not recognise signal.signal)")
+    prog = ctx.prog
+    scope = set(ctx.lib_cone) | set(ctx.cli_cone)
+    entry = prog.func("json_to_models/cli.py", "main")
+    n_funcs = 0
+    st = ("generation, rendering and Cli.run work from any thread: nothing they call is refused outside the main thread")
+    by_mod = {}
+    for m in prog.pkg_modules():
+        by_mod[m.relpath] = {id(c): full for c, full in _main_thread_only_calls(m.tree)}
+    for f in sorted(scope, key=lambda x: x.key):
+        if f is entry:
+            continue
+        n_funcs += 1
+        hits = by_mod.get(f.relpath, {})
+        for n in walk_no_nested(f.node):
+            if isinstance(n, ast.Call) and id(n) in hits:
+                full = hits[id(n)]
+                rr.instances += 1
+                rr.ob(f.relpath, f.qualname, norm(n)[:80], st, VIOLATED,
+                      f"`{full}` may only be called from the main thread ({MAIN_THREAD_ONLY[full]}); {f.qualname} is "
+                      f"reachable from a worker thread", n.lineno)
+    rr.instances += 1
+    rr.ob("json_to_models", "<package>", f"{n_funcs} functions on generation / CLI paths", st, DISCHARGED,
+          f"none of {sorted(MAIN_THREAD_ONLY)} is called (positive control matched 2/2)", 1)
+    if n_funcs < 50:
+        raise AnalysisError(f"THREAD-1: only {n_funcs} functions in scope")
+    return rr
